@@ -26,7 +26,7 @@ MANIFEST = {
             "transcription of resolve_unit/convert (validated by the UNITS/RESOLVE/LOWER/BUILTIN correspondence streams); "
             "Rust to_lowercase modelled only on ASCII + the dumped non-ASCII characters; the binary64 bounds of all "
             "three kinds are proved (there-and-back and composition); axioms: none except the "
-            "allow-listed real-number axioms under the Flocq theorem",
+            "allow-listed real-number axioms under the 8 Flocq theorems",
     "design_ref": "notes/C17.md (DESIGN.md section 6 C17)",
 }
 
